@@ -25,6 +25,7 @@ EXPLANATION = (
     "them for writing fails without creating or modifying anything. Decides the property for every "
     "dataset because no rule depends on the value. Not decided: symlinks planted inside the storage "
     "directory by a local user, the database engine's own files."
+    " Fifth round (end): The taint engine follows module-level helpers and flags paths that went through os.path.abspath / normpath before a write (lexical '..' collapsing); (config-faithful) the configuration is parsed with configparser's standard value syntax."
 )
 
 SAFE_EVENT_ATTRS = {"assoc", "timestamp", "context", "event"}
